@@ -371,6 +371,8 @@ type crashOutcome struct {
 	simTime     time.Duration
 	pickHash    uint64
 	imageHashes []string
+	trace       []simrt.Event
+	histD       string
 	tagCounts   map[string]int
 	sessionBad  bool
 }
@@ -429,6 +431,7 @@ func runCrashCase(c *Ctx, dc dbCase, tape *simrt.Tape, plan crashPlan) crashOutc
 	}
 	trace := r.w.Trace()
 	hist := r.hist
+	out.trace, out.histD = trace, histDigest(hist)
 	if os.Getenv("VERIF_TRACE") != "" {
 		for _, e := range trace {
 			fmt.Printf("TRACE #%d task=%d(%s) %s %s %s off=%d len=%d n=%d %s\n", e.Seq, e.Task, e.TName, e.Kind, e.Path, e.Path2, e.Off, len(e.Data), e.N, e.Note)
@@ -668,6 +671,7 @@ func crashsimMain(c *Ctx) {
 		plan := crashPlan{mode: c.Mode, thorough: c.Thorough(), all: c.Thorough() || c.Mode == "async", count: true}
 		out := runCrashCase(c, dc, tape, plan)
 		c.Res.Runs++
+		c.RunHash(out.trace, out.pickHash, out.histD, strings.Join(out.imageHashes, ","), len(out.vs))
 		c.Res.Evaluations += out.recoveries + out.nested
 		c.Res.SimSeconds += out.simTime.Seconds()
 		c.Count("sched-steps", out.steps)
